@@ -348,7 +348,7 @@ def r8_value_access(ctx, sym, mod):
             if isinstance(o, Obj) and name in o.attrs:
                 return o.attrs[name]
             raise Raised('AttributeError', name)
-        ctor = rec.stub('SandboxResult', fn=lambda *a, **k: Obj('new-proxy', args=a))
+        ctor = rec.stub('SandboxResult', fn=lambda *a, **k: Obj('new-proxy', args=a or (k.get('value'),)))
         ctor.ASSIGNABLE_ATTRS = None
         fd = symexec.new_fd(sym, mod, calls={
             'object.__getattribute__': raw_get, 'SandboxResult': ctor,
